@@ -208,14 +208,14 @@ def run(rep, tier):
     cfgs = ["x86-rayon"] if tier == "quick" else ["x86-rayon", "arm-rayon"]
     for cfg, prog in programs(cfgs):
         rep.set_cfg(cfg)
-        offset_once(rep, prog, "C08.offset-once")
-        axis(rep, prog, "C08.axis")
-        c14.aliasing(rep, prog, "C08.aliasing")
-        c14.guards(rep, prog, "C08.split-guards")
-        c14.offsets(rep, prog, "C08.split-offsets")
-        n = c03.arith(rep, prog, "C08.arith", only=lambda f: f.file == "src/threading.rs")
+        rep.call(offset_once, rep, prog, "C08.offset-once")
+        rep.call(axis, rep, prog, "C08.axis")
+        rep.call(c14.aliasing, rep, prog, "C08.aliasing")
+        rep.call(c14.guards, rep, prog, "C08.split-guards")
+        rep.call(c14.offsets, rep, prog, "C08.split-offsets")
+        n = rep.call(c03.arith, rep, prog, "C08.arith", only=lambda f: f.file == "src/threading.rs") or 0
         rep.floor("C08.arith", "arithmetic asserts in threading.rs", n, 8)
-        index_rules.unwraps(rep, prog, "C08.unwrap", only=lambda f: f.file == "src/threading.rs", floor=6)
+        rep.call(index_rules.unwraps, rep, prog, "C08.unwrap", only=lambda f: f.file == "src/threading.rs", floor=6)
     if tier == "thorough":
         rep.set_cfg("witness")
-        witness.report(rep, "C08.types", ["W3", "W5"])
+        rep.call(witness.report, rep, "C08.types", ["W3", "W5"])
